@@ -64,7 +64,7 @@ Lemma apply_general st c x d p :
   find_uni (sv_unis (st_sv st)) (u_id x) = Some x ->
   sinks_ok (st_sv st) -> pend_closed st ->
   let st' := apply_dmx st c x d p in
-  let src := {| s_data := dmx_set d; s_ts := st_now st; s_prio := clamp_prio p |} in
+  let src := {| s_data := dmx_set d; s_ts := st_wake st; s_prio := clamp_prio p |} in
   cd_find (sv_cdata (st_sv st')) (c, u_id x) = Some src /\
   exists x2 ch,
     find_uni (sv_unis (st_sv st')) (u_id x) = Some x2 /\
@@ -76,7 +76,7 @@ Lemma apply_general st c x d p :
      (ch = true -> In (c, src) G /\
         (u_htp x = true -> u_buf x2 = fold_left htp (map (fun e => s_data (snd e)) G) []) /\
         (u_htp x = false -> u_buf x2 = dmx_set d /\
-                            (forall e, In e G -> s_ts (snd e) <= st_now st \/ G = [(c, src)])))) /\
+                            (forall e, In e G -> s_ts (snd e) <= st_wake st \/ G = [(c, src)])))) /\
     (ch = true -> forall s, In s (u_sinks x) -> k_closed (st_cl st s) = false ->
        k_s2c (st_cl st' s) = k_s2c (st_cl st s) ++ [SPush (u_id x) (u_aprio x2) (u_buf x2)]) /\
     (ch = false -> st_cl st' = st_cl st) /\
@@ -84,7 +84,7 @@ Lemma apply_general st c x d p :
     (forall rid y, snd (handle_req st' y (RGet rid (u_id x))) = Some (SDmx rid (u_id x) (u_aprio x2) (u_buf x2))).
 Proof.
   intros Hfind Hok Hp. cbn zeta. unfold apply_dmx.
-  set (src := {| s_data := dmx_set d; s_ts := st_now st; s_prio := clamp_prio p |}).
+  set (src := {| s_data := dmx_set d; s_ts := st_wake st; s_prio := clamp_prio p |}).
   set (cd := cd_set (sv_cdata (st_sv st)) (c, u_id x) src).
   set (srcs := if src_memb c (u_srcs x) then _ else _).
   assert (src_memb c srcs = true) as Hsm.
